@@ -40,7 +40,8 @@ def _ensure_datetime(value):
 def parse_xsd_datetime(value):
     try:
         return dateutil.parser.parse(value)
-    except ValueError:
+    except (ValueError, TypeError):
+        # not a time, or not even a string
         pass
     return None
 
@@ -439,6 +440,9 @@ class ProvRecord(object):
                     )
                     value = self._bundle.valid_qualified_name(qname)
                 elif attr in PROV_ATTRIBUTE_LITERALS:
+                    if isinstance(original_value, Literal):
+                        # e.g. a literal typed xsd:dateTime
+                        original_value = self._auto_literal_conversion(original_value)
                     value = (
                         original_value
                         if isinstance(original_value, datetime.datetime)
